@@ -283,6 +283,7 @@ func c12Api(in *c12ApiIn, res map[string]any) {
 	var bif int64
 	modes := map[int]bool{}
 	nCong, nSent := 0, 0
+	drain := 0
 	for i := 0; i < in.N && ok; i++ {
 		// time
 		switch r := rng.Intn(20); {
@@ -301,6 +302,16 @@ func c12Api(in *c12ApiIn, res map[string]any) {
 			rtt.min = time.Duration(1+rng.Int63n(200)) * time.Millisecond / time.Duration(1+rng.Intn(4))
 		}
 		k := rng.Intn(100)
+		// drain phases: no sends, one congestion event per outstanding packet (oldest first, a few ms apart); the packets
+		// sent right after such a phase are acked against A0 candidates that are all older than they are (the trailing
+		// loop of chooseA0Point with several candidates left)
+		if drain > 0 {
+			drain--
+			k = 60
+			now += (1 + rng.Int63n(8)) * int64(time.Millisecond)
+		} else if rng.Intn(25) == 0 && len(sent) > 2 {
+			drain = 3 + rng.Intn(12)
+		}
 		switch {
 		case k < 55: // OnPacketSent
 			pn := nextPn
@@ -361,9 +372,13 @@ func c12Api(in *c12ApiIn, res map[string]any) {
 				sent = keep
 				return out
 			}
-			acked = pick(20 + rng.Intn(60))
-			if rng.Intn(5) == 0 {
-				lost = pick(rng.Intn(40))
+			if drain > 0 && len(sent) > 0 {
+				acked, sent = [][2]int64{sent[0]}, sent[1:]
+			} else {
+				acked = pick(20 + rng.Intn(60))
+				if rng.Intn(5) == 0 {
+					lost = pick(rng.Intn(40))
+				}
 			}
 			if rng.Intn(15) == 0 { // a packet the sender never saw (or saw long ago)
 				acked = append(acked, [2]int64{nextPn + rng.Int63n(5), 1 + rng.Int63n(mds)})
